@@ -106,7 +106,10 @@ class BrokerState:
 
         workers_dict = {}
         for step_name, worker_state in self.workers.items():
-            # Serialize queue with retry info
+            # Serialize queue with retry info. In-progress executions are not complete
+            # yet and will be restarted on resume: like rewind_in_progress(), put them
+            # at the front of the queue together with their retry count, first-attempt
+            # time and recovery budget (a bare in_progress event would lose those).
             queue = [
                 SerializedEventAttempt(
                     event=serializer.serialize(attempt.event),
@@ -116,13 +119,9 @@ class BrokerState:
                     last_failed_at=attempt.last_failed_at,
                     recovery_counts=dict(attempt.recovery_counts),
                 )
-                for attempt in worker_state.queue
+                for attempt in [*worker_state.in_progress, *worker_state.queue]
             ]
-
-            # Serialize in-progress events (just the events, retry info tracked separately)
-            in_progress = [
-                serializer.serialize(ip.event) for ip in worker_state.in_progress
-            ]
+            in_progress: list[str] = []
 
             # Serialize collected events
             collected_events = {
